@@ -1,5 +1,6 @@
 import Netconan.Proofs.SrcTieIp
 import Netconan.Proofs.IpInt
+import Netconan.Proofs.Ipv6Bound
 /-!
 # The stateful replacement function of the source computes the pure text-level replacement
 
@@ -87,5 +88,22 @@ theorem anonymize_match_spec_v4 (cfg : IpCfg) (h4 : cfg.fam6 = false) (undo : Bo
   have : cfg.L = 32 := by simp [IpCfg.L, h4]
   rw [this]
   exact parseV4_lt txt n hn
+
+/-- both families, no side condition: every text that parses gives a value of the family's width -/
+theorem anonymize_match_spec_all (cfg : IpCfg) (undo : Bool) (txt : List Char)
+    (c : Cache) (hI : Inv cfg.h cfg.pins cfg.L cfg.B c) :
+    ∃ c', Src.anonymize_match cfg.h cfg.fam6 cfg.nets cfg.L cfg.B txt undo c = .ok (anonMatch cfg undo txt, c') ∧
+      Inv cfg.h cfg.pins cfg.L cfg.B c' ∧ (∀ e ∈ c, e ∈ c') := by
+  apply anonymize_match_spec cfg undo txt _ c hI
+  intro n hn
+  cases h6 : cfg.fam6 with
+  | false =>
+    simp only [h6, Bool.false_eq_true, ↓reduceIte] at hn
+    have : cfg.L = 32 := by simp [IpCfg.L, h6]
+    rw [this]; exact parseV4_lt txt n hn
+  | true =>
+    simp only [h6, ↓reduceIte] at hn
+    have : cfg.L = 128 := by simp [IpCfg.L, h6]
+    rw [this]; exact parseV6_lt txt n hn
 
 end Netconan.SrcTie
